@@ -143,8 +143,65 @@ def ec_width_tables(ctx, rid):
     return out
 
 
+EC_SIG = {"EcdsaP256": (32, "Es256"), "EcdsaP384": (48, "Es384"), "EcdsaP521": (66, "Es512")}
+
+
+def ecdsa_signature_table(prog):
+    """KeyPair::sign EVALUATED for the three EC key types on signatures whose components are short (r two bytes short and s full
+    width; r full and s one byte short; both three bytes short): [(key type, case, got bytes, expected bytes)] or None. Expected:
+    each component left-padded with zero bytes to the curve width, r then s (RFC 7518 section 3.4)."""
+    from ..absint import UNIT, Val, marker, ok, run, struct_val, success_model, variant, vint
+    JSA = "acme_common::crypto::jws_signature_algorithm::JwsSignatureAlgorithm"
+    b = prog.body(KEYS + "::sign")
+    if b is None:
+        return None
+    rows = []
+    for kt, (w, alg) in EC_SIG.items():
+        for case, (dr, ds) in (("r-2", (2, 0)), ("s-1", (0, 1)), ("both-3", (3, 3)), ("full", (0, 0))):
+            rbytes = [((7 * i + 1) % 255) + 1 for i in range(w - dr)]
+            sbytes = [((5 * i + 3) % 255) + 1 for i in range(w - ds)]
+
+            def ov(cs, args, rbytes=rbytes, sbytes=sbytes):
+                n = cs.name or ""
+                d = [a.deref() for a in args]
+                if n.endswith("EcdsaSigRef::r"):
+                    return Val("unknown", "BN_R")
+                if n.endswith("EcdsaSigRef::s"):
+                    return Val("unknown", "BN_S")
+                if n.endswith("BigNumRef::to_vec") and d:
+                    return Val("list", [vint(x) for x in (rbytes if "BN_R" in repr(d[0]) else sbytes)])
+                if n.endswith("BigNumRef::num_bytes") and d:
+                    return vint(len(rbytes if "BN_R" in repr(d[0]) else sbytes))
+                if n.endswith("BigNumRef::to_vec_padded") and len(d) > 1 and d[1].k == "int":
+                    src = rbytes if "BN_R" in repr(d[0]) else sbytes
+                    if d[1].v < len(src):
+                        return None
+                    return ok(Val("list", [vint(0)] * (d[1].v - len(src)) + [vint(x) for x in src]))
+                if n.endswith("check_alg_compatibility"):
+                    return ok(UNIT)
+                return None
+            try:
+                kp = struct_val(prog, KEYS, {"key_type": variant(KT, kt), "inner_key": marker("PKEY")})
+                r = run(b, {1: Val("ref", kp), 2: Val("ref", variant(JSA, alg)), 3: Val("ref", marker("DATA"))}, success_model(b, ov, skip_unknown_loops=True), max_steps=200000,
+                        follow=lambda cs: (cs.name or "").startswith("acme_common::crypto::openssl_keys::"))
+            except Exception:
+                return None
+            rv = r.ret.deref() if r.kind == "return" and r.ret is not None else None
+            if rv is None or rv.k != "adt" or not rv.extra or rv.extra[1] != "Ok" or not rv.v or rv.v[0].deref().k != "list" or not all(x.deref().k == "int" for x in rv.v[0].deref().v):
+                return None
+            rows.append((kt, case, [x.deref().v for x in rv.v[0].deref().v], [0] * dr + rbytes + [0] * ds + sbytes))
+    return rows
+
+
 def padding_rules(ctx, rid):
     prog = ctx.prog
+    sig = ecdsa_signature_table(prog)
+    if sig is not None:
+        sb_ = prog.must_body(KEYS + "::sign")
+        for kt, case, got, want in sig:
+            ctx.require(rid, got == want, "%s:%s" % (sb_.file, sb_.line), "%s signature, components %s: %d bytes%s (expected %d: r and s each left-padded with zeroes to the curve width)"
+                        % (kt, case, len(got), "" if got == want else ", starts %s" % got[:4], len(want)), [KEYS + "::sign", "signature-width", kt, case])
+        return jwk_padding_rules(ctx, rid)
     # signature: both r and s are padded to `sig_size` (resize_with(size - len) + append, or to_vec_padded(size))
     b = prog.must_body(KEYS + "::sign_ecdsa")
     parts = {"r": b.calls_to("openssl::ecdsa::EcdsaSigRef::r"), "s": b.calls_to("openssl::ecdsa::EcdsaSigRef::s")}
@@ -163,6 +220,11 @@ def padding_rules(ctx, rid):
     ret = origins(b, {"l": 0, "p": []})
     ctx.require(rid, any(x.is_("openssl::ecdsa::EcdsaSigRef::r") for x in ret.calls) and any(x.is_("openssl::ecdsa::EcdsaSigRef::s") for x in ret.calls), "%s:%s" % (b.file, b.line),
                 "the signature returned is built from r and s", [KEYS + "::sign_ecdsa", "r-and-s"])
+    jwk_padding_rules(ctx, rid)
+
+
+def jwk_padding_rules(ctx, rid):
+    prog = ctx.prog
     # JWK coordinates: to_vec_padded(size) for x and y
     j = prog.must_body(KEYS + "::get_ecdsa_jwk")
     tvp = j.calls_to("openssl::bn::BigNumRef::to_vec_padded")
